@@ -31,6 +31,39 @@ func (g *G) variations(thorough bool) {
 			q.phy = sp(hex.EncodeToString(other.joinRequestFrame(a.devNonce)))
 			g.run(t, q, "IWrongMIC", "join-wrong-mic", "join:wrong-mic:other-key:"+a.describe(), nil)
 		}
+		// ---- MIC that is CORRECT under another key the server knows or can derive (never under NwkKey):
+		//      AppKey, the NwkKey of another configured device, JSIntKey, JSEncKey, the all-zero key.
+		//      Must be MICFailed whatever OptNeg says (a 1.1-provisioned device on a 1.0 NS included). ----
+		for _, optneg := range []bool{false, true} {
+			for _, which := range []string{"appkey", "other-device-nwkkey", "other-device-appkey", "jsintkey", "jsenckey", "zero-key", "nwkkey-reversed"} {
+				a, o := g.randomAct(kJoin), g.randomAct(kJoin)
+				a.dls = a.dls&0x7f | map[bool]byte{false: 0, true: 0x80}[optneg]
+				t, q := a.table(), g.request(&a)
+				t.devices = append(t.devices, devEntry{eui: o.dev.devEUI, kind: found, nwk: o.dev.nwkKey, app: o.dev.appKey, joinNonce: o.joinNonce})
+				key := map[string][]byte{"appkey": a.dev.appKey[:], "other-device-nwkkey": o.dev.nwkKey[:], "other-device-appkey": o.dev.appKey[:],
+					"jsintkey": a.dev.jsIntKey(), "jsenckey": a.dev.jsEncKey(), "zero-key": make([]byte, 16), "nwkkey-reversed": rev(a.dev.nwkKey[:])}[which]
+				q.phy = sp(g.hexText(a.dev.joinRequestFrameUnder(a.devNonce, key), true))
+				g.run(t, q, "IWrongMIC", "join-mic-under-other-key", fmt.Sprintf("join:mic-under=%s:%s", which, a.describe()), nil)
+			}
+		}
+		{ // both root keys equal: the MIC under "AppKey" IS the MIC under NwkKey, Success
+			a := g.randomAct(kJoin)
+			a.dev.appKey = a.dev.nwkKey
+			g.activation(&a, "join-ok")
+		}
+		// ---- rejoin-request whose MIC is correct under some other key (NwkKey, AppKey, JSEncKey, zero): the
+		//      handler does not look at it; whatever it answers must be what the model answers ----
+		for kind := kRejoin0; kind <= kRejoin2; kind++ {
+			for _, which := range []string{"nwkkey", "appkey", "jsenckey", "zero-key"} {
+				a := g.randomAct(kind)
+				t, q := a.table(), g.request(&a)
+				key := map[string][]byte{"nwkkey": a.dev.nwkKey[:], "appkey": a.dev.appKey[:], "jsenckey": a.dev.jsEncKey(), "zero-key": make([]byte, 16)}[which]
+				f := a.frame()
+				msg := f[:len(f)-4]
+				q.phy = sp(hex.EncodeToString(cat(msg, mic4(key, msg))))
+				g.run(t, q, "INone", "rejoin-mic-under-other-key", fmt.Sprintf("rejoin:mic-under=%s:%s", which, a.describe()), nil)
+			}
+		}
 		// ---- rejoin-request with a wrong MIC: the property fixes nothing (the code does not look at it) ----
 		for kind := kRejoin0; kind <= kRejoin2; kind++ {
 			a := g.randomAct(kind)
